@@ -97,6 +97,11 @@ macro_rules! impl_parse {
                     }
 
                     $input.parse::<syn::Token![,]>()?;
+
+                    // serde accepts a trailing comma
+                    if $input.is_empty() {
+                        break;
+                    }
                 }
 
                 Ok($out)
